@@ -202,7 +202,7 @@ func thorough(c *Ctx, spec *PropSpec, repo string, extra map[string]interface{})
 		Hits       []string
 	}
 	var corpus []cres
-	for _, ce := range loadCorpus(verif, "seeded") {
+	for _, ce := range append(loadCorpus(verif, "seeded"), loadCorpus(verif, "handmutants")...) {
 		ce := ce
 		mine := ce.Property == spec.ID
 		for _, a := range ce.Also {
